@@ -342,8 +342,24 @@ def start_rules(ctx, prog):
            {"success_paths": n, "with_stray_descriptor": bad}, nontrivial=True)
 
 
+def who_closes_streams(ctx, prog):
+    """S6: the parent's end of a stream is closed only by the read/write that saw its end (closed-pipe path), by reproc_close and
+    by reproc_destroy (and by start when it fails).  No other call - wait, stop, terminate, kill, poll - releases a stream end:
+    output still buffered in the pipe when the child exits must stay readable"""
+    from .. import apirules as R
+    from .. import apimodel as A
+    toks = {A.tok(x): x for x in ("in", "out", "err")}
+    for f in ("reproc_wait", "reproc_stop", "reproc_terminate", "reproc_kill", "reproc_poll"):
+        res, F, I = R.run_poll(ctx, prog) if f == "reproc_poll" else R.run(ctx, prog, f)
+        closed = sorted({"%s (%s)" % (toks[a], site_of(e[1], e[2])) for e in res.events if e[0] == "close" for a in e[3] if a in toks})
+        ctx.ob("C02.S6", f, "this call never closes the parent's end of stdin, stdout or stderr (data the child wrote before it exited "
+               "stays readable until the closed-stream condition is met by a read, or the parent closes the stream itself)", not closed,
+               {"closes": closed[:4]}, nontrivial=True)
+
+
 def check(ctx):
     prog = ctx.prog("posix-mt")
+    who_closes_streams(ctx, prog)
     pipe_read_rule(ctx, prog)
     api_rules(ctx, prog)
     setup_input_rules(ctx, prog)
